@@ -26,6 +26,8 @@ func parse(tokens []*Token) ([]AstCommand, error) {
 }
 
 func parse_command(tokens []*Token, token_index int) (AstCommand, int, error) {
+	// regex groups are numbered per command: variables are scoped per command as well
+	capture_group_number = 0
 	switch tokens[token_index].TokenType {
 	case FIND:
 		return parse_find(tokens, token_index)
